@@ -47,7 +47,7 @@ mod gaps {
     }
 
     pub fn gen_case(r: &mut Rng) -> Case {
-        let kind = r.below(8);
+        let kind = r.below(9);
         Case { kind, a: r.below(64), b: r.below(64), c: r.below(64), d: r.below(8),
                script: (0..r.range(1, 8)).map(|_| (r.below(6), r.range(1, 30))).collect() }
     }
@@ -66,7 +66,8 @@ mod gaps {
             4 => overflow(c),
             5 => refused(c),
             6 => small_paths(c),
-            _ => str_parts(c),
+            7 => str_parts(c),
+            _ => typed_vs_dyn_shrink(c),
         }
     }
 
@@ -440,6 +441,52 @@ mod gaps {
         };
         if off != std_off { notes.push(format!("{head}: the split_off part is {off:?}, the range is {std_off:?}")); }
         if rest != std_rest { notes.push(format!("{head}: split_off changed the remaining part to {rest:?} instead of {std_rest:?}")); }
+        notes
+    }
+
+    // ------------------------------------------------------------------------------------------
+    // C17 / C13: the typed shrink_slice and the Allocator::shrink reached through a trait object have their own copies of
+    // the arithmetic; from equal states they must end at the same offset with the same allocated byte count, keep the
+    // contents, and leave the position a multiple of MIN_ALIGN (element alignments below and above MIN_ALIGN, both directions)
+    fn typed_vs_dyn_shrink(c: &Case) -> Vec<String> {
+        use bump_scope::traits::{BumpAllocatorCore, BumpAllocatorTyped};
+        let mut notes = vec![];
+        let old_len = 1 + (c.a % 40) as usize;
+        let new_len = (c.b as usize) % (old_len + 1);
+        let pre = (c.c % 9) as usize;
+        macro_rules! with {
+            ($ma:literal, $up:literal, $t:ty) => {{
+                type B = Bump<Global, BumpSettings<$ma, $up>>;
+                let head = format!("typed-vs-dyn shrink: elem={} old_len={old_len} new_len={new_len} pre={pre} MIN_ALIGN={} UP={}", core::any::type_name::<$t>(), $ma, $up);
+                let (b1, b2): (B, B) = (Bump::with_size(1024), Bump::with_size(1024));
+                let run = |b: &B, typed: bool| -> (usize, usize, Vec<u8>, usize) {
+                    if pre > 0 { b.alloc_slice_fill(pre, 0xEEu8); }
+                    let es = core::mem::size_of::<$t>();
+                    let p: core::ptr::NonNull<$t> = b.allocate_slice::<$t>(old_len);
+                    unsafe { core::ptr::write_bytes(p.as_ptr() as *mut u8, 0, old_len * es); for i in 0..old_len * es { *(p.as_ptr() as *mut u8).add(i) = (i * 7 + 3) as u8; } }
+                    let np: usize = unsafe {
+                        if typed { b.shrink_slice(p, old_len, new_len).map_or(p.as_ptr() as usize, |q| q.as_ptr() as usize) }
+                        else {
+                            let d: &dyn BumpAllocatorCore = b;
+                            let (ol, nl) = (core::alloc::Layout::array::<$t>(old_len).unwrap(), core::alloc::Layout::array::<$t>(new_len).unwrap());
+                            bump_scope::alloc::Allocator::shrink(&d, p.cast(), ol, nl).map_or(p.as_ptr() as usize, |q| q.as_ptr() as *mut u8 as usize)
+                        }
+                    };
+                    let st = b.stats();
+                    let cs = st.current_chunk().unwrap();
+                    let bytes = unsafe { core::slice::from_raw_parts(np as *const u8, new_len * es) }.to_vec();
+                    (np - cs.chunk_start().as_ptr() as usize, st.allocated(), bytes, cs.bump_position().as_ptr() as usize % $ma)
+                };
+                let (o1, a1, c1, m1) = run(&b1, true);
+                let (o2, a2, c2, m2) = run(&b2, false);
+                let want: Vec<u8> = (0..new_len * core::mem::size_of::<$t>()).map(|i| (i * 7 + 3) as u8).collect();
+                if (o1, a1) != (o2, a2) { notes.push(format!("{head}: returned values differ: the typed shrink_slice ends at offset {o1} with {a1} bytes allocated, Allocator::shrink through a trait object at offset {o2} with {a2}")); }
+                if c1 != want || c2 != want { notes.push(format!("{head}: contents differ from std::vec::Vec after the shrink (typed ok: {}, dyn ok: {})", c1 == want, c2 == want)); }
+                if m1 != 0 || m2 != 0 { notes.push(format!("{head}: returned values differ: the position is not a multiple of MIN_ALIGN after the shrink (typed {m1}, dyn {m2})")); }
+            }};
+        }
+        match c.d % 8 { 0 => with!(8, false, u8), 1 => with!(8, true, u8), 2 => with!(16, false, u16), 3 => with!(4, false, [u8; 3]),
+                        4 => with!(1, false, u32), 5 => with!(2, true, u64), 6 => with!(16, false, u8), _ => with!(4, true, u16) }
         notes
     }
 
